@@ -124,6 +124,7 @@ def run_filter(case, res):
     from ghedesigner.feature_recognition import remove_cutout
 
     poly = FILTER_POLYS[case["poly"]]
+    others = [FILTER_POLYS[k] for k in case.get("more", [])]  # further outlines handed to the filter together with the first (they overlap it)
     tol = case["tol"]
     n = len(poly)
     probes = []
@@ -138,18 +139,26 @@ def run_filter(case, res):
     for remove_inside in (True, False):
         for keep in (True, False):
             res["evals"] += 1
-            kept = remove_cutout([list(q) for q in probes], [list(v) for v in poly], remove_inside=remove_inside, keep_contour=keep, on_edge_tolerance=tol)
+            bounds = [list(v) for v in poly] if not others else [[list(v) for v in pl] for pl in [poly] + others]
+            kept = remove_cutout([list(q) for q in probes], bounds, remove_inside=remove_inside, keep_contour=keep, on_edge_tolerance=tol)
             kept = {(float(q[0]), float(q[1])) for q in kept}
             for q in probes:
-                det = P.detour(poly, q[0], q[1])
-                if abs(det - tol) < max(1e-9, 1e-6 * tol):
+                classes, near_band = [], False
+                for pl in [poly] + others:
+                    det = P.detour(pl, q[0], q[1])
+                    if abs(det - tol) < max(1e-9, 1e-6 * tol):
+                        near_band = True
+                    classes.append(0 if det < tol else P.classify(pl, q[0], q[1]))
+                if near_band:
                     res["excluded"] += 1
                     continue
-                cls = 0 if det < tol else P.classify(poly, q[0], q[1])
+                cls = classes[0] if not others else (1 if 1 in classes else 0 if 0 in classes else -1)
+                # a point counts as inside when it is inside any outline, as on the contour when it is on some outline's contour (the
+                # documented rule of the filter, whichever outline is listed first)
                 if remove_inside:
-                    want = (cls != 1) and not (cls == 0 and not keep)
+                    want = (1 not in classes) and not (0 in classes and not keep)
                 else:
-                    want = (cls == 1) or (cls == 0 and keep)
+                    want = (1 in classes) or (0 in classes and keep)
                 if ((float(q[0]), float(q[1])) in kept) != want:
                     res["violations"].append(core.viol("land_filter_ignores_class", dict(case, probe=[q[0], q[1]], remove_inside=remove_inside, keep_contour=keep),
                                                        msg=f"remove_cutout(tolerance {tol}, remove_inside={remove_inside}, keep_contour={keep}): point ({q[0]:.5f}, {q[1]:.5f}) with detour {det:.3e} "
@@ -209,7 +218,8 @@ def main(run: core.Run, only=None):
     for n, canonical, perturb in plan:
         cases += chunks(n, canonical, xfs, perturb)
     results = run.drive(cases, family="lattice-polygons", chunksize=1)
-    run.drive([{"poly": k, "tol": t} for k in range(len(FILTER_POLYS)) for t in (1.0e-4, 0.001, 0.01, 0.5)], family="land-constraint-filter")
+    run.drive([{"poly": k, "tol": t} for k in range(len(FILTER_POLYS)) for t in (1.0e-4, 0.001, 0.01, 0.5)] +
+              [{"poly": a, "more": [b], "tol": t} for a, b in ((0, 2), (2, 0), (1, 2), (2, 1), (0, 1)) for t in (0.001, 0.01)], family="land-constraint-filter")
     mins = [r.get("min_detour_e6") for r in results if r.get("min_detour_e6") is not None]
     min_detour = min(mins) / 1e6 if mins else None
     rule = (
